@@ -13,7 +13,7 @@ ASSUMPTIONS = ["reference secp256k1 / Base58Check in vf/ref", "SEC1 hybrid/compa
 NSHARDS = {"quick": 32, "thorough": 64}
 BUDGET_S = {"quick": 200, "thorough": 1800}
 MIN_HITS = {
-    'quick': {"key": 256, "edge_key": 87, "addr_hash": 5632, "leading_zero_hash": 1281, "addr_corrupt": 1440, "addr_len": 769, "wif_corrupt": 3584, "pub_candidate": 880, "pub_offcurve": 473, "unlock": 128, "prefix_nonzero": 5180},
+    'quick': {"key": 256, "edge_key": 87, "addr_hash": 5740, "leading_zero_hash": 1389, "addr_corrupt": 1440, "addr_len": 765, "wif_corrupt": 3584, "pub_candidate": 880, "pub_offcurve": 480, "unlock": 128, "prefix_nonzero": 5204},
     'thorough': {"key": 23040, "addr_hash": 38860, "leading_zero_hash": 36864, "addr_corrupt": 276480, "wif_corrupt": 460800, "pub_candidate": 115200, "pub_offcurve": 61788, "unlock": 23040},
 }
 EDGE = [1, 2, 3, (ec.N - 1) // 2, (ec.N + 1) // 2, ec.N - 2, ec.N - 1]
@@ -100,6 +100,14 @@ def cases(ctx):
             h = b"\x00" * zl + (bytes([r.randrange(1, 256)]) + gen.rbytes(r, 19 - zl) if zl < 20 else b"")
             for prefix in (0, 0, 0x6F, r.randrange(256)):
                 yield {"k": "addr_hash", "hash": h.hex(), "prefix": prefix}
+    # the shortest valid addresses (26 characters on mainnet): 19 zero bytes + one byte 01..07, or 18 zero bytes + 01 + any byte; and
+    # their neighbours
+    if S % 4 == 3 or t:
+        for b in list(range(0, 12)) + [0x7F, 0x80, 0xFF]:
+            yield {"k": "addr_hash", "hash": (b"\x00" * 19 + bytes([b])).hex(), "prefix": 0, "shortest": True}
+        for b1, b2 in ((1, 0), (1, 0xFF), (1, r.randrange(256)), (2, 0), (0, 1), (8, 0)):
+            yield {"k": "addr_hash", "hash": (b"\x00" * 18 + bytes([b1, b2])).hex(), "prefix": 0, "shortest": True}
+            yield {"k": "addr_hash", "hash": (b"\x00" * 18 + bytes([b1, b2])).hex(), "prefix": 0x6F, "shortest": True}
     for i in range(1500 if t else 5):
         h = gen.rbytes(r, 20)
         if r.random() < 0.3:
@@ -321,6 +329,8 @@ def judge(ctx, case):
         if p:
             ctx.hit("prefix_nonzero")
         s = ref_addr(h, p)
+        if len(s) <= 26:
+            ctx.hit("address_of_26_characters")
         a = ctx.call({"op": "addr", "hash": case["hash"], "prefix": p})
         ctx.ev()
         ao = a.get("ok")
